@@ -298,8 +298,9 @@ func runC07(c *an.Ctx) {
 	}
 
 	c07Dispose(c)
-	c07Caches(c)
-	c07Cloner(c)
+	c07Caches(c, "C07-R4")
+	sharedReplyInit(c, "C07-R4")
+	c07Cloner(c, "C07-R5")
 
 	// ---- R6 who writes RequestInfo
 	if t := c.TypeByString("agd.RequestInfo"); t != nil {
@@ -423,7 +424,7 @@ func c07Dispose(c *an.Ctx) {
 }
 
 // c07Caches checks clone-in / clone-out.
-func c07Caches(c *an.Ctx) {
+func c07Caches(c *an.Ctx, rule string) {
 	isCloneCall := func(v ssa.Value) bool {
 		v = an.Unwrap(v)
 		call, ok := v.(*ssa.Call)
@@ -437,7 +438,7 @@ func c07Caches(c *an.Ctx) {
 	}
 	// ecscache.set stores a clone
 	if fn := c.Fn("ecscache.(*Middleware).set"); fn == nil {
-		c.Und("C07-R4", "ecscache.(*Middleware).set", token.NoPos, "anchor not found")
+		c.Und(rule, "ecscache.(*Middleware).set", token.NoPos, "anchor not found")
 	} else {
 		ok := false
 		for _, call := range an.CallsTo(fn, "ecscache.toCacheItem") {
@@ -445,11 +446,11 @@ func c07Caches(c *an.Ctx) {
 				ok = true
 			}
 		}
-		c.Check(ok, "C07-R4", "ecscache.(*Middleware).set stores a clone", fn.Pos(), "the cached message is a clone of the response",
+		c.Check(ok, rule, "ecscache.(*Middleware).set stores a clone", fn.Pos(), "the cached message is a clone of the response",
 			"the ECS cache stores the response object itself: the writer that later disposes or adjusts it corrupts the cache")
 	}
 	if fn := c.Fn("dnsserver/cache.(*Middleware).toCacheItem"); fn == nil {
-		c.Und("C07-R4", "dnsserver/cache.(*Middleware).toCacheItem", token.NoPos, "anchor not found")
+		c.Und(rule, "dnsserver/cache.(*Middleware).toCacheItem", token.NoPos, "anchor not found")
 	} else {
 		ok := false
 		for _, fs := range c.FieldStores("dnsserver/cache.cacheItem", "msg") {
@@ -457,10 +458,10 @@ func c07Caches(c *an.Ctx) {
 				ok = true
 			}
 		}
-		c.Check(ok, "C07-R4", "dnsserver/cache.(*Middleware).toCacheItem stores a copy", fn.Pos(), "the cached message is a copy", "the simple cache stores the response object itself")
+		c.Check(ok, rule, "dnsserver/cache.(*Middleware).toCacheItem stores a copy", fn.Pos(), "the cached message is a copy", "the simple cache stores the response object itself")
 	}
 	if fn := c.Fn("filter/hashprefix.(*Filter).setInCache"); fn == nil {
-		c.Und("C07-R4", "filter/hashprefix.(*Filter).setInCache", token.NoPos, "anchor not found")
+		c.Und(rule, "filter/hashprefix.(*Filter).setInCache", token.NoPos, "anchor not found")
 	} else {
 		n, bad := 0, 0
 		for _, fs := range c.FieldStores("filter/hashprefix.cacheItem", "res") {
@@ -475,11 +476,11 @@ func c07Caches(c *an.Ctx) {
 				bad++
 			}
 		}
-		c.Check(n > 0 && bad == 0, "C07-R4", "filter/hashprefix.(*Filter).setInCache stores clones", fn.Pos(), "every cached result is a clone",
+		c.Check(n > 0 && bad == 0, rule, "filter/hashprefix.(*Filter).setInCache stores clones", fn.Pos(), "every cached result is a clone",
 			"the hash-prefix cache stores the result object handed to the requester")
 	}
 	if fn := c.Fn("filter/hashprefix.(*Filter).clonedResult"); fn == nil {
-		c.Und("C07-R4", "filter/hashprefix.(*Filter).clonedResult", token.NoPos, "anchor not found")
+		c.Und(rule, "filter/hashprefix.(*Filter).clonedResult", token.NoPos, "anchor not found")
 	} else {
 		ok := true
 		n := 0
@@ -493,13 +494,13 @@ func c07Caches(c *an.Ctx) {
 				ok = false
 			}
 		}
-		c.Check(ok && n >= 2, "C07-R4", "filter/hashprefix.(*Filter).clonedResult hands out clones", fn.Pos(), "cached results are cloned for every requester",
+		c.Check(ok && n >= 2, rule, "filter/hashprefix.(*Filter).clonedResult hands out clones", fn.Pos(), "cached results are cloned for every requester",
 			"a cached result object is handed to a requester that may modify or dispose it")
 	}
 }
 
 // c07Cloner checks the deep-copy discipline of the dnsmsg cloners.
-func c07Cloner(c *an.Ctx) {
+func c07Cloner(c *an.Ctx, rule string) {
 	refLikeT := func(t types.Type) bool {
 		switch u := t.Underlying().(type) {
 		case *types.Slice, *types.Pointer, *types.Map:
@@ -510,11 +511,24 @@ func c07Cloner(c *an.Ctx) {
 		}
 		return false
 	}
-	for _, fn := range c.FnsMatching("dnsmsg.(*") {
-		k := an.FnKey(fn)
-		if c.IsTestFile(fn.Pos()) || !(strings.Contains(k, "Cloner).clone") || strings.Contains(k, "loner).Clone") || strings.Contains(k, "Cloner).append")) {
-			continue
+	// every dnsmsg function that builds (part of) a clone: reachable from Cloner.Clone, plus the record constructors
+	var roots []*ssa.Function
+	if r := c.Fn("dnsmsg.(*Cloner).Clone"); r != nil {
+		roots = append(roots, r)
+	}
+	for _, fn := range c.FnsMatching("dnsmsg.new") {
+		roots = append(roots, fn)
+	}
+	reach := c.ReachableFrom(roots, nil)
+	var fns []*ssa.Function
+	for fn := range reach {
+		if strings.HasPrefix(an.FnKey(fn), "dnsmsg.") && !c.IsTestFile(fn.Pos()) {
+			fns = append(fns, fn)
 		}
+	}
+	sort.Slice(fns, func(i, j int) bool { return an.FnKey(fns[i]) < an.FnKey(fns[j]) })
+	for _, fn := range fns {
+		k := an.FnKey(fn)
 		c.Analysed(k)
 		an.Instrs(fn, func(in ssa.Instruction) {
 			st, ok := in.(*ssa.Store)
@@ -534,6 +548,10 @@ func c07Cloner(c *an.Ctx) {
 			v := an.Unwrap(st.Val)
 			shallow := ""
 			switch x := v.(type) {
+			case *ssa.Parameter:
+				if _, isSlice := x.Type().Underlying().(*types.Slice); isSlice {
+					shallow = "the caller's slice itself (parameter " + x.Name() + ")"
+				}
 			case *ssa.UnOp:
 				if x.Op == token.MUL {
 					if _, isFA := x.X.(*ssa.FieldAddr); isFA {
@@ -556,9 +574,9 @@ func c07Cloner(c *an.Ctx) {
 				}
 			}
 			if shallow != "" {
-				c.Bad("C07-R5", key, st.Pos(), "the clone receives %s: clone and original share memory, so releasing or modifying one corrupts the other", shallow)
+				c.Bad(rule, key, st.Pos(), "the clone receives %s: clone and original share memory, so releasing or modifying one corrupts the other", shallow)
 			} else {
-				c.Ok("C07-R5", key, st.Pos(), "fresh, appended, pooled or cloned value")
+				c.Ok(rule, key, st.Pos(), "fresh, appended, pooled or cloned value")
 			}
 		})
 	}
@@ -604,7 +622,7 @@ func c07Cloner(c *an.Ctx) {
 		}
 		key := pair[0] + " vs " + pair[1]
 		if a == nil || b == nil {
-			c.Und("C07-R5", key, token.NoPos, "anchor not found")
+			c.Und(rule, key, token.NoPos, "anchor not found")
 			continue
 		}
 		var diff []string
@@ -619,7 +637,7 @@ func c07Cloner(c *an.Ctx) {
 			}
 		}
 		sort.Strings(diff)
-		c.Check(len(diff) == 0, "C07-R5", key, fa.Pos(), fmt.Sprintf("both switches name the same %d types", len(a)),
+		c.Check(len(diff) == 0, rule, key, fa.Pos(), fmt.Sprintf("both switches name the same %d types", len(a)),
 			"the clone and release switches disagree: "+strings.Join(diff, "; "))
 	}
 }
